@@ -521,6 +521,7 @@ class Engine:
             path.oblige("vacuous-pre", "", z3.BoolVal(False))
             raise PathEnd()
         path.cover("pre")
+        c._I = interp
         interp.contract = c
         interp.top_fn = fn
         # run
@@ -1908,6 +1909,10 @@ class Interp:
         return z3.If(b > 0, a % b, -((-a) % (-b)))
 
     def binop(self, op, a, b, node=None):
+        if isinstance(op, ast.Mult) and isinstance(a, (tuple, list)) and isinstance(b, int) and not isinstance(b, bool):
+            return a * b          # sequence repetition (elements may be symbolic)
+        if isinstance(op, ast.Add) and isinstance(a, tuple) and isinstance(b, tuple):
+            return a + b
         # concrete
         if not _symbolic(a) and not _symbolic(b):
             return self.concrete_binop(op, a, b)
